@@ -122,6 +122,27 @@ Theorem C05_add_inverse hol wk month t0 t1 fuel a t n r :
 Proof. exact (add_inverse hol wk month t0 t1 fuel a t n r). Qed.
 Print Assumptions C05_add_inverse.
 
+(* general bdays(x, y) = signed day-by-day count between the adjusted dates; clock = count from t0;
+   a b-period string bump 'nb' is add(t, n) (compound strings chain it; '+0b' / '-0b' adjust f / p first) *)
+Theorem C05_bdays_is_count hol wk month t0 t1 fuel a x y sx sy n :
+  adjust hol wk month t0 t1 fuel a x = Some sx -> adjust hol wk month t0 t1 fuel a y = Some sy ->
+  bdays hol wk month t0 t1 (populate hol wk t0 t1) fuel a x y = Ok n ->
+  (t0 <= sx <= t1 /\ is_bday hol wk sx = true) /\ (t0 <= sy <= t1 /\ is_bday hol wk sy = true) /\
+  n = cnt (is_bday hol wk) t0 sy - cnt (is_bday hol wk) t0 sx /\
+  (sx <= sy -> n = cnt (is_bday hol wk) (sx + 1) (sy + 1)) /\ (sy <= sx -> n = - cnt (is_bday hol wk) (sy + 1) (sx + 1)).
+Proof. exact (bdays_is_count hol wk month t0 t1 fuel a x y sx sy n). Qed.
+Print Assumptions C05_bdays_is_count.
+Theorem C05_clock_is_count hol wk month t0 t1 fuel a t s i :
+  adjust hol wk month t0 t1 fuel a t = Some s ->
+  (clock hol wk month t0 t1 (populate hol wk t0 t1) fuel a t = Ok i <->
+   (t0 <= s <= t1 /\ is_bday hol wk s = true /\ i = cnt (is_bday hol wk) t0 s)).
+Proof. exact (clock_is_count hol wk month t0 t1 fuel a t s i). Qed.
+Print Assumptions C05_clock_is_count.
+Theorem C05_dt_bump_b_is_add hol wk month t0 t1 T fuel a t n :
+  dt_bump_b hol wk month t0 t1 T fuel a t [(n, 0)] = add hol wk month t0 t1 T fuel a t n.
+Proof. exact (dt_bump_b_single hol wk month t0 t1 T fuel a t n). Qed.
+Print Assumptions C05_dt_bump_b_is_add.
+
 Theorem C05_drange_1b hol wk month t0 t1 fuel a x y sx sy l :
   adjust hol wk month t0 t1 fuel a x = Some sx -> adjust hol wk month t0 t1 fuel a y = Some sy ->
   drange_1b hol wk month t0 t1 (populate hol wk t0 t1) fuel a x y = Ok l ->
